@@ -75,4 +75,32 @@ theorem C10_shared_defaults_interfere :
     (World.run false World.init [.newLas, .newLas, .mutate 0 1 [['X']]]).observe 1 ≠
     (World.run false World.init [.newLas, .newLas]).observe 1 := by decide
 
+/-- `NoLoneCR` is needed in `C10_channels`: a lone CR is a line break for files but not for strings -/
+theorem C10_channels_needs_noLoneCR :
+    (splitLF (deliver .pathStr ['a', '\r', 'b'] ['a', '\r', 'b'])).map strip ≠
+    (splitLF ['a', '\r', 'b']).map strip := by decide
+
+/-- non-vacuity: a CRLF text satisfies `NoLoneCR` and is delivered as two stripped lines by a file channel -/
+example : NoLoneCR ['a', '\r', '\n', 'b'] ∧
+    (splitLF (deliver .fileObj ['a', '\r', '\n', 'b'] ['a', '\r', '\n', 'b'])).map strip = [['a'], ['b']] := by
+  decide
+
+/-- non-vacuity (contrast with `C10_shared_defaults_interfere`): with fresh defaults the same history leaves
+object 1 untouched -/
+example :
+    (World.run true World.init [.newLas, .newLas, .mutate 0 1 [['X']], .read 0 [(2, [['Y']])]]).observe 1 =
+    (World.run true World.init [.newLas, .newLas]).observe 1 := by decide
+
 end Lasio
+
+#print axioms Lasio.C10_classify
+#print axioms Lasio.C10_encoding_choice
+#print axioms Lasio.C10_deliver
+#print axioms Lasio.C10_channels
+#print axioms Lasio.C10_univNL
+#print axioms Lasio.C10_default_items_fresh
+#print axioms Lasio.C10_wf_run
+#print axioms Lasio.C10_noninterference
+#print axioms Lasio.C10_pure
+#print axioms Lasio.C10_shared_defaults_interfere
+#print axioms Lasio.C10_channels_needs_noLoneCR
